@@ -268,7 +268,18 @@ pub fn random_tree(r: &mut Rng) -> Vec<Sub> {
     root.lat_n = root.lat_s + (root.rows - 1) as f64;
     root.lon_e = root.lon_w + (root.cols - 1) as f64;
     root.values = (0..root.rows * root.cols * 2).map(|_| (r.range(-2000, 2000) as f32) / 16.0).collect();
-    let mut subs = vec![Sub { name: "ROOT".into(), parent: "NONE".into(), g: root.clone() }];
+    // names as real files have them: upper case, mixed case ("ALbanff"), lower case, digits
+    let style = r.below(4);
+    let nm = move |base: &str| -> String {
+        match style {
+            0 => base.to_string(),
+            1 => base.to_lowercase(),
+            2 => base.chars().enumerate().map(|(i, c)| if i % 2 == 1 { c.to_ascii_lowercase() } else { c }).collect(),
+            _ => format!("{}x", base.to_lowercase()),
+        }
+    };
+    let root_name = nm("ROOT");
+    let mut subs = vec![Sub { name: root_name.clone(), parent: "NONE".into(), g: root.clone() }];
     let nchild = r.below(3);
     for c in 0..nchild {
         // a 2x2-cell window of the parent at half spacing; windows side by side, not overlapping
@@ -286,7 +297,7 @@ pub fn random_tree(r: &mut Rng) -> Vec<Sub> {
         g.rows = 5;
         g.cols = 5;
         g.values = (0..50).map(|_| (r.range(-2000, 2000) as f32) / 16.0).collect();
-        let name = format!("CH{c}");
+        let name = nm(&format!("CH{c}"));
         if r.chance(1, 2) {
             let mut gg = g.clone();
             gg.dlat = 0.25;
@@ -296,9 +307,9 @@ pub fn random_tree(r: &mut Rng) -> Vec<Sub> {
             gg.rows = 5;
             gg.cols = 5;
             gg.values = (0..50).map(|_| (r.range(-2000, 2000) as f32) / 16.0).collect();
-            subs.push(Sub { name: format!("GC{c}"), parent: name.clone(), g: gg });
+            subs.push(Sub { name: nm(&format!("GC{c}")), parent: name.clone(), g: gg });
         }
-        subs.push(Sub { name, parent: "ROOT".into(), g });
+        subs.push(Sub { name, parent: root_name.clone(), g });
     }
     // the order of sub-grids in the file is arbitrary
     for i in (1..subs.len()).rev() {
@@ -501,12 +512,23 @@ fn c08_ops(g: &mut Gen, thorough: bool) {
         "gridshift grids=test_subset.datum,test.datum", "gridshift grids=@missing.datum,test.datum", "gridshift grids=test_subset.datum,@null",
         "deformation dt=1 grids=test.deformation", "deformation raw dt=2 grids=test.deformation", "deflection grids=test.geoid",
         "gridshift grids=100800401.gsb",
+        "gridshift grids=5458_with_subgrid.gsb,test.datum", "gridshift grids=5458.gsb,@null", "gridshift grids=5458.gsb,test.datum",
     ] {
         g.push(format!("S_C08O\t{}", crate::wire::escape(def)), "oracle-operator", true);
         // the same definition over the shipped files, on the model
         if !def.contains("100800401") {
             let u = std::f64::consts::PI / 180.0;
             let mut geo: Vec<[f64; 4]> = (0..8).map(|_| [g.rng.uniform(7.0, 17.0) * u, g.rng.uniform(53.0, 59.0) * u, g.rng.uniform(0.0, 100.0), 2000.0 + g.rng.below(30) as f64]).collect();
+            // a hair outside and inside the south and west borders of the NTv2 root (54 N, 8 E) and of its child
+            // (55 N, 12 E): the tolerances of the sub-grid search (1e-6) and of the interpolation differ
+            for eps in [1e-10f64, 1e-8, 5e-7, 2e-6] {
+                for s in [-1.0, 1.0] {
+                    geo.push([12.5 * u, 54.0 * u + s * eps, 10.0, 2000.0]);
+                    geo.push([8.0 * u + s * eps, 56.5 * u, 10.0, 2000.0]);
+                    geo.push([12.5 * u, 55.0 * u + s * eps, 10.0, 2000.0]);
+                    geo.push([12.0 * u + s * eps, 55.5 * u, 10.0, 2000.0]);
+                }
+            }
             // positions that are not numbers are in no grid
             geo.push([f64::NAN, 56.0 * u, 10.0, 2000.0]);
             geo.push([12.0 * u, f64::NAN, 10.0, 2000.0]);
@@ -861,6 +883,15 @@ pub fn generate_c15(g: &mut Gen, thorough: bool) {
             let (v, kind) = corrupt(&mut g.rng, &bytes, if fmt == "ntv2" { 352 } else { 60 });
             push_damaged(g, fmt, &v, &format!("corrupt-{kind}"), area);
         }
+    }
+    // Gravsoft headers that claim far more nodes than the file holds (a damaged spacing or border, each dimension
+    // still in range): an error, not an allocation sized by the header
+    for header in [
+        "54 58 8 16 1.e-8 1.e-8", "54 58 8 16 1 1e-8", "54 58 8 16 0.00000001 1", "54 58 8 16 4e-9 1", "-80 80 -179 179 1e-6 1e-6", "54. 58. 8. 16. 1.e-8 1.",
+        "54 54.5 8 8.5 5e-10 5e-10", "5400000 5800000 800000 1600000 0.01 0.01",
+    ] {
+        let text = format!("{header}\n 1 2 3 4 5\n 6 7 8 9 10\n");
+        push_damaged(g, "gravsoft", text.as_bytes(), "gravsoft-header-claims-too-much", area);
     }
     // the larger shipped files by name (the harness applies the damage itself)
     for (rel, n) in [("geodesy/gsb/100800401.gsb", 25824usize), ("geodesy/deformation/eur_nkg_nkgrf17vel.deformation", 2826447)] {
